@@ -140,6 +140,7 @@ func (fw *fedWorld) buildService(name string) (*graphql.Schema, error) {
 			}
 			return out
 		}))
+		s.Object("F", F{}) // a union member that lives on the root service only
 		oa.FieldFunc("b", func(ctx context.Context, a *A) (*B, error) {
 			if err := w.point(ctx, "A.b", a.ID); err != nil {
 				return nil, err
